@@ -68,7 +68,7 @@ func (p *FullIntraRequest) Unmarshal(rawPacket []byte) error {
 	}
 
 	// The FCI field MUST contain one or more FIR entries
-	if 4*h.Length-firOffset <= 0 || (4*h.Length)%8 != 0 {
+	if 4*h.Length <= firOffset || (4*h.Length)%8 != 0 {
 		return errBadLength
 	}
 
